@@ -153,7 +153,11 @@ class Ref:
             p, ep = self.expr(e[1])
             n = int(e[2])
             r = ipow(p, n)
-            return r, abs(r) * (1 + abs(n) * (ep / abs(p) if p != 0 else 0))
+            if p == 0:
+                # the base is exactly 0 only in exact arithmetic (e.g. -8 + 8): in floats it may be any residue within
+                # its own rounding bound ep, so the power is within ep**n of 0 (n > 0; n <= 0 is undefined / 1)
+                return r, (ep ** n if n > 0 else abs(r))
+            return r, abs(r) * (1 + abs(n) * (ep / abs(p)))
         if op in ('fn', 'opq'):
             raise Undefined('not rational: %s' % (e[1],))
         (p, ep), (q, eq_) = self.expr(e[1]), self.expr(e[2])
